@@ -74,7 +74,13 @@ def gen_world(rng, tier, *, min_species=2, max_species=5, allow_small_refs=True,
                           for kind, idx in items)
         resid = 99999 - n_res_total + 1
     atomid = 1
+    share = rng.random() < 0.25          # numbering per complex / ion pair: neighbours of DIFFERENT species may share a number
+    prev_key = None
     for kind, idx in items:
+        key = ("sol", 0) if kind == "sol" else ("mol", idx)
+        if share and prev_key is not None and key != prev_key and rng.random() < 0.6 and resid > 1:
+            resid -= 1                    # this molecule's first residue carries the number of the previous one's last
+        prev_key = key
         if kind == "sol":
             for an in solvent["atoms"]:
                 p = [round(rng.uniform(0, 12), 3) for _ in range(3)]
@@ -123,15 +129,15 @@ def end_gro_text(spec):
     return gen.gro_text("end resolution " + spec["name"], ls, [5.0, 5.0, 5.0])
 
 
-def write_world(d, world, prefix=""):
-    """Writes all files; returns dict of paths."""
+def write_world(d, world, prefix="", dotted=False):
+    """Writes all files; returns dict of paths.  dotted: base names with several dots (force-field versions, temperatures)."""
     paths = {"system": os.path.join(d, prefix + "system.gro"), "species": []}
     with open(paths["system"], "w") as f:
         f.write(system_text(world))
     for sp in world["species"]:
-        p = {"top_start": os.path.join(d, f"{prefix}{sp['name']}_CG.itp"),
-             "gro_end": os.path.join(d, f"{prefix}{sp['name']}_AA.gro"),
-             "top_end": os.path.join(d, f"{prefix}{sp['name']}_AA.itp")}
+        p = {"top_start": os.path.join(d, f"{prefix}{sp['name']}_CG{'_v2.2' if dotted else ''}.itp"),
+             "gro_end": os.path.join(d, f"{prefix}{sp['name']}_AA{'.298.15K' if dotted else ''}.gro"),
+             "top_end": os.path.join(d, f"{prefix}{sp['name']}_AA{'.opls' if dotted else ''}.itp")}
         with open(p["top_start"], "w") as f:
             f.write(gen.itp_text(sp["start"]))
         with open(p["top_end"], "w") as f:
